@@ -14,8 +14,15 @@ def _seq(st, tag):
     return n
 
 
+NULL_TOLERANT = {}     # filled by validate(): does the implementation return NULL for a NULL source without touching it?
+
+
 def sum_b64decode(it, st, args, node):
     """jwt_base64uri_decode(src, ret_len): NULL, or a jwt_malloc'ed buffer with *ret_len >= 1"""
+    if not NULL_TOLERANT.get('jwt_base64uri_decode', True) and args and not isinstance(args[0], (Ref, Str)):
+        it.rule.on_deref(it, st, args[0], node)      # the implementation no longer guards a NULL source (see validate())
+        if st.dead:
+            return []
     s1 = st.clone()
     tag = 'b64dec@%s' % site(node)
     o = s1.newobj(tag)
@@ -128,6 +135,17 @@ def validate(prog, model):
         if not ok:
             raise AnalysisBroken('summary of jwt_base64uri_decode invalid: non-NULL result with *ret_len possibly <= 0 (%r)' % (lv,))
     report['jwt_base64uri_decode'] = n
+    # NULL source: tolerated (returns NULL without a dereference) or not -- the summary then carries the obligation to its callers
+    import memrules
+    mr = memrules.MemRule()
+    mr.check_uninit = False
+    mr.check_own = False
+    it = Interp(prog, 'libjwt/jwt.c', model=model, rule=mr)
+    res = it.run('jwt_base64uri_decode', [NULL, Ref(rl)], State())
+    tol = bool(res) and all(rv is NULL or (isinstance(rv, Int) and rv.v == 0) for s, rv in res) \
+        and not any(v[0] == 'null-deref' for v in mr.viol)
+    NULL_TOLERANT['jwt_base64uri_decode'] = tol
+    report['jwt_base64uri_decode(NULL) tolerated'] = tol
     # --- jwt_base64uri_encode
     it = Interp(prog, 'libjwt/jwt.c', model=model, rule=R())
     st = State()
